@@ -243,9 +243,12 @@ struct BatchSemaphoreState {
 
 impl BatchSemaphoreState {
     fn acquire_permits(&mut self, num_permits: usize, fairness: Fairness) -> Result<(), TryAcquireError> {
-        assert!(num_permits > 0);
         if self.closed {
             Err(TryAcquireError::Closed)
+        } else if num_permits == 0 {
+            // Acquiring zero permits is always possible (see `PermitsAvailable::acquire`), also
+            // while other requests are queued: it takes nothing away from them.
+            Ok(())
         } else if self.waiters.is_empty() || matches!(fairness, Fairness::Unfair) {
             // Permits here can be acquired in one of two scenarios:
             // - The waiter queue is empty; nobody else is waiting for permits,
